@@ -87,8 +87,26 @@ def judge(bench, log, acyclic=True):
             res.append(("C16:init-before-messages", mine[0][2] < first[0]["idx"], f"model {i} processed message {first[0]['mid']} before its init"))
     # ---- run results: on an acyclic bench no command may stall
     for name, b, e, r in cmds:
-        if acyclic:
-            res.append(("C12:waiters-are-resumed", r == ("Ok",), f"command {name} on an acyclic bench ended with {r}: a task waiting for space / for a message was never resumed"))
+        if not acyclic:
+            continue
+        if r == ("Ok",):
+            res.append(("C12:waiters-are-resumed", True, ""))
+            res.append(("C06:no-false-report", True, ""))
+            continue
+        # the command failed on a bench that cannot dead-lock: either every message was in fact processed (a false
+        # Deadlock / MessageLoss report: C06) or some task waiting for space / for a message was never resumed (C12)
+        complete = True
+        for mid, s in sends.items():
+            if s["begin"] > e:
+                continue
+            exp = expected_deliveries(bench, s["via"], filters, mid, connected, s["begin"])
+            got = [(h["model"], h["port"]) for h in handles if h["mid"] == mid and h["idx"] < e and h["hid"] in handled_end]
+            if any(x[2] == "unknown" for x in exp) or sorted(got) != sorted((x[0], x[1]) for x in exp):
+                complete = False
+        if complete:
+            res.append(("C06:no-false-report", False, f"command {name}: every message that was sent has been processed, yet the run was reported as {r}"))
+        else:
+            res.append(("C12:waiters-are-resumed", False, f"command {name} on an acyclic bench ended with {r}: a task waiting for space / for a message was never resumed"))
     # ---- C03: exactly-once delivery, judged at the end of every command that returned Ok
     for name, b, e, r in cmds:
         if r != ("Ok",):
@@ -155,6 +173,12 @@ def judge(bench, log, acyclic=True):
                 if (m1, i) in hb and (m2, i) in hb:
                     res.append(("C02:causal-order", (m1, i) not in hb[(m2, i)],
                                 f"model {i} ({bench['models'][i]['name']}) processed message {m1} before message {m2}, but the sending of {m2} to it happens before the sending of {m1}"))
+    # ---- C14: a query whose command ran to quiescence has returned
+    for name, b, e, r in cmds:
+        for mid, s in sends.items():
+            if s["via"][0] == "requestor" and b < s["begin"] < e:
+                res.append(("C14:query-returns", s["end"] is not None and s["end"] < e,
+                            f"query {mid} via {s['via']} had not returned when command {name} ended ({r}) although nothing was left to run"))
     # ---- C14: one reply per accepting replier, in connection order, only after all repliers are done
     for mid, ctx, replies, idx, first_only in queries:
         exp = expected_deliveries(bench, sends[mid]["via"], filters, mid, connected, sends[mid]["begin"])
@@ -248,8 +272,15 @@ def benches(tier):
                                outputs={"0.0": [dict(to=1), dict(to=2)], "1.0": [dict(to=3)], "2.0": [dict(to=3)]},
                                handlers={"0.0": [["send", 0]], "1.0": [["send", 0], ["send", 0]], "2.0": [["send", 0], ["send", 0]], "3.0": []}),
                     driver=[[0, 0]]))
+    # 5b. the handler of a received message depends on a sender that is blocked on the same mailbox: P sends twice to B
+    #     (capacity 1) and B, handling the first message, queries P - P can only reply once its blocked send got the slot
+    out.append(dict(name="handler-needs-blocked-sender", props=["C12", "C03", "C02"],
+                    bench=dict(models=[M("P"), M("B")],
+                               outputs={"0.0": [dict(to=1)]}, requestors={"1.0": [dict(to=0, port=1)]},
+                               handlers={"0.0": [["send", 0], ["send", 0]], "1.0": [["query", 0]], "0.1": []}),
+                    driver=[[0, 0]]))
     # 6. plain + map + filter connections, two ports on the recipient, volume above capacity
-    out.append(dict(name="map-filter", props=["C03", "C12"],
+    out.append(dict(name="map-filter", props=["C03"],
                     bench=dict(models=[M("A"), M("B"), M("C", 2)],
                                outputs={"0.0": [dict(to=1), dict(to=2, kind="map"), dict(to=1, port=1, kind="filter")]},
                                handlers={"0.0": [["send", 0], ["send", 0]], "1.0": [], "1.1": [], "2.0": []}),
@@ -274,18 +305,25 @@ def benches(tier):
                                handlers={"0.0": [], "1.0": [], "2.0": [["send", 0]]}),
                     driver=[[1, 0]]))
     # 9. queries: 0..3 repliers, filtered subsets, repliers that yield (arbitrary completion orders), a replier that sends
-    for nrep in ((0, 2, 3) if q else (0, 1, 2, 3, 4)):
+    for nrep in ((0, 2) if q else (0, 1, 2, 3)):
         reps = [dict(to=1 + r, kind=("filter" if r % 2 == 1 else "plain")) for r in range(nrep)]
         models = [M("R")] + [M(f"S{r}") for r in range(nrep)]
         handlers = {"0.0": [["query", 0], ["query", 0]] if nrep in (1, 2) else [["query", 0]]}
         for r in range(nrep):
             handlers[f"{1 + r}.0"] = [["yield"]] if r % 2 == 0 else []
-        out.append(dict(name=f"query-{nrep}", props=["C14", "C03", "C12"],
+        out.append(dict(name=f"query-{nrep}", props=["C14", "C03"],
                         bench=dict(models=models, requestors={"0.0": reps}, handlers=handlers), driver=[[0, 0]]))
     # 9b. the reply iterator of a query is only partly consumed before the next query
-    out.append(dict(name="query-partial", props=["C14", "C03", "C12"],
+    out.append(dict(name="query-partial", props=["C14", "C03"],
                     bench=dict(models=[M("R"), M("S0"), M("S1")], requestors={"0.0": [dict(to=1), dict(to=2)]},
-                               handlers={"0.0": [["query-first", 0], ["query", 0]], "1.0": [], "2.0": [["yield"]]}), driver=[[0, 0], [0, 0]]))
+                               handlers={"0.0": [["query-first", 0], ["query", 0]], "1.0": [], "2.0": []}), driver=[[0, 0]] if q else [[0, 0], [0, 0]]))
+    # 9b'. a query awaited inside a join with a yielding future / with another query: the broadcast future is re-polled
+    #      although none of its sub-tasks was woken (spurious polls, wake-up bookkeeping of TaskSet)
+    out.append(dict(name="query-joined", props=["C14", "C03"],
+                    bench=dict(models=[M("R"), M("S0"), M("S1")],
+                               requestors={"0.0": [dict(to=1), dict(to=2)], "0.1": [dict(to=2, port=1), dict(to=1, port=1)]},
+                               handlers={"0.0": [["join", ["query", 0], ["yield"]]] + ([] if q else [["join", ["query", 0], ["query", 1]]]),
+                                         "1.0": [], "2.0": [], "1.1": [], "2.1": []}), driver=[[0, 0]]))
     # 9c. port clones share one connection list: the model holds a clone made before / after the connections were added
     #     through the original, and a connection is added later through yet another clone, after a first send
     for how in ("clone-before", "clone-after"):
@@ -297,7 +335,7 @@ def benches(tier):
                                    handlers={"0.0": [["send", 0]], "3.0": [["query", 0]], "1.0": [], "2.0": [], "1.1": [], "2.1": []}),
                         driver=[[0, 0], [3, 0], ["connect", "Output", "0.0", 1], ["connect", "Requestor", "3.0", 1], [0, 0], [3, 0]]))
     # 10. a query whose repliers send events to a shared sink model while the requestor waits
-    out.append(dict(name="query-with-sends", props=["C14", "C02", "C03", "C12"],
+    out.append(dict(name="query-with-sends", props=["C14", "C02"] + ([] if q else ["C03", "C12"]),
                     bench=dict(models=[M("R"), M("S0"), M("S1"), M("K")],
                                requestors={"0.0": [dict(to=1), dict(to=2)]},
                                outputs={"1.0": [dict(to=3)], "2.0": [dict(to=3)], "0.1": [dict(to=3)]},
